@@ -17,12 +17,13 @@ def _clear_caches(ns_):
             cc_()
 
 PROPERTY = "C18"
-REGIONS = ["one-addition", "two-additions", "three-additions", "added-defaulted-rule", "added-imply-rule", "clash-with-rule-id", "clash-with-item-id",
+REGIONS = ["generated-configurator-id", "one-addition", "two-additions", "three-additions", "added-defaulted-rule", "added-imply-rule", "clash-with-rule-id", "clash-with-item-id",
            "symbolic-threshold", "original-unchanged-checked"]
 BOUNDS = ("CFG family configurators (explicit configurator id) x sequences of <=3 added rules drawn from {plain AtLeast/AtMost/Any/All/Xor rule, defaulted cc.Any/cc.Xor, "
           "Imply}; thresholds/signs of explicitly named AtLeast/AtMost nodes in old and new rules symbolic (|v|<=2^20); the added rule's id is fresh, or equals an "
           "existing top-level rule id, or an existing top-level item id; polyhedron / default priorities / select answers compared on a concrete representative of every path")
-OUTSIDE = "configurators with a generated id (add() keeps the old generated id while direct construction generates a new one: the two requirements of the statement conflict there); longer histories"
+OUTSIDE = ("longer histories; for configurators created without an id the reference object is built with the original auto-generated id given explicitly "
+           "(direct construction without an id would generate a different one)")
 FAMILY = "configurators x addition sequences x id-clash selector"
 ASSUMPTIONS = ["M4", "M5 structural", "M6", "M7 (polyhedron on representatives)", "honest note (DESIGN.md): the solver's share is thin here: equalities between parameter terms; "
                "value lies in the clash selector, history bound and the frame check"]
@@ -57,6 +58,11 @@ def instantiations(tier, seed):
         nadd = 1 + k % 3
         added = [F.symbolize(r) for r in nr[:nadd]]
         out.append({"model": c, "added": added, "clash": None})
+        if k % 2 == 1:
+            # configurator created without an id: add() must keep the (auto-generated) id too; the reference is built with that id given explicitly
+            cg = copy.deepcopy(c)
+            cg["id"] = None
+            out.append({"model": cg, "added": added, "clash": None, "genid": True})
         tops = [r for r in c["ch"]]
         rule_ids = [r["id"] for r in tops if r["t"] != "var" and r.get("id")]
         if rule_ids and k % 2 == 0:
@@ -132,7 +138,8 @@ def run_inst(spec, run):
                 raised = "%s: %s" % (type(e).__name__, e)
                 break
         s_after = snap(ns, c0)
-        direct = pl.build(ns, direct_spec, env) if (clash is None or mu == "clash_ignored") else None
+        dspec = dict(direct_spec, id=c0.id) if spec.get("genid") else direct_spec
+        direct = pl.build(ns, dspec, env) if (clash is None or mu == "clash_ignored") else None
         return dict(env=env, c0=c0, cur=cur, raised=raised, s_before=s_before, s_after=s_after, direct=direct)
 
     def on_path(ctx, d):
@@ -159,7 +166,9 @@ def run_inst(spec, run):
             return
         cur, direct = d["cur"], d["direct"]
         run.obligation(ctx, "same-structure-as-direct-construction", snap_diff(snap(ns, cur), snap(ns, direct)), conc)
-        run.obligation(ctx, "id-kept", cur.id != base["id"], conc)
+        run.obligation(ctx, "id-kept", cur.id != d["c0"].id, conc)
+        if spec.get("genid"):
+            run.region("generated-configurator-id")
         # representative: default priorities, polyhedron
         ctx._ensure_model()
         cenv = plh.conc_env(ctx.model, env)
@@ -172,7 +181,7 @@ def run_inst(spec, run):
                 a.leafs()
                 a.default_prios
                 a = a.add(pl.build(ns, r, cenv))
-            b = pl.build(ns, direct_spec, cenv)
+            b = pl.build(ns, dict(direct_spec, id=pl.build(ns, base, cenv).id) if spec.get("genid") else direct_spec, cenv)
             bad = []
             if a.default_prios != b.default_prios:
                 bad.append("default_prios differ")
@@ -189,5 +198,5 @@ def run_inst(spec, run):
             run.obligation(ctx, "same-prios-and-polyhedron", True, lambda m: {"env": cenv}, extra="; ".join(bad))
         run.sample({"base": pl.show(base), "added": [pl.show(r) for r in added], "clash": clash, "path_condition": [str(z3.simplify(c)) for c in ctx.pc][:5]})
 
-    st = S.explore(fn, on_path, max_paths=8000, wall=900)
+    st = S.explore(fn, on_path, max_paths=30000, wall=2400)
     return run.result(st)
